@@ -1,6 +1,6 @@
 (* C04: proofs about model/Noop.v (no-op rebuild, skip, cone). *)
 From Coq Require Import List NArith Bool Lia PeanoNat.
-From SV Require Import lib.Bytes model.Graph model.GraphDump model.Noop gen.GenNoop.
+From SV Require Import lib.Bytes lib.Closure model.Graph model.GraphDump model.Noop gen.GenNoop.
 Import ListNotations.
 Open Scope N_scope.
 
@@ -842,17 +842,109 @@ Proof. intros H. unfold file_sinks_of_step, sinks_of. rewrite H. reflexivity. Qe
 Lemma step_sinks_deps f s s' : deps s' = deps s -> step_sinks_of_file f s' = step_sinks_of_file f s.
 Proof. intros H. unfold step_sinks_of_file, sinks_of. rewrite H. reflexivity. Qed.
 
-Lemma required_f_same fuel s s' :
-  nodes s' = nodes s -> deps s' = deps s -> (forall l, need_of l s' = need_of l s) ->
-  forall l, required_f fuel l s' = required_f fuel l s.
+(* ---- `required` is a reachability closure: its fuel-free characterisation ------------------ *)
+Lemma has_dep_in a b s : has_dep a b s = true <-> exists d, In d (deps s) /\ dsrc d = a /\ dsnk d = b.
 Proof.
-  intros Hn Hd Hq. induction fuel as [|fuel IH]; intros l; cbn [required_f];
-    specialize (Hq l) as Hql; unfold need_of in Hql;
-    destruct (find_step l s') as [r'|], (find_step l s) as [r|]; try discriminate; try reflexivity;
-    injection Hql as Hql; rewrite Hql; [reflexivity|].
-  f_equal. rewrite (file_sinks_deps l s s' Hd). apply existsb_ext'. intros f.
-  rewrite (step_sinks_deps f s s' Hd). apply existsb_ext'. intros c.
-  rewrite (attached_nodes (KStep, c) s s' Hn), IH. reflexivity.
+  unfold has_dep. rewrite existsb_exists. split.
+  - intros [d [Hd Hc]]. apply andb_true_iff in Hc. destruct Hc as [H1 H2].
+    apply key_eqb_eq in H1. apply key_eqb_eq in H2. exists d. auto.
+  - intros [d [Hd [H1 H2]]]. exists d. split; [exact Hd|]. subst. rewrite !key_eqb_refl. reflexivity.
+Qed.
+
+Lemma has_dep_step_sink f l s : has_dep (KFile, f) (KStep, l) s = true -> In l (step_sinks_of_file f s).
+Proof.
+  intros H. apply has_dep_in in H. destruct H as [d [Hd [H1 H2]]].
+  unfold step_sinks_of_file, sinks_of. apply in_map_iff. exists (KStep, l). split; [reflexivity|].
+  apply filter_In. split; [|reflexivity]. apply in_map_iff. exists d. split; [exact H2|].
+  apply filter_In. split; [exact Hd|]. rewrite H1. apply key_eqb_refl.
+Qed.
+
+Lemma has_dep_file_sink l f s : has_dep (KStep, l) (KFile, f) s = true -> In f (file_sinks_of_step l s).
+Proof.
+  intros H. apply has_dep_in in H. destruct H as [d [Hd [H1 H2]]].
+  unfold file_sinks_of_step, sinks_of. apply in_map_iff. exists (KFile, f). split; [reflexivity|].
+  apply filter_In. split; [|reflexivity]. apply in_map_iff. exists d. split; [exact H2|].
+  apply filter_In. split; [exact Hd|]. rewrite H1. apply key_eqb_refl.
+Qed.
+
+(* (c, l): the attached step c (which has a row) consumes an output of l *)
+Definition req_edge (s : st) (c l : str) : Prop :=
+  exists f, has_dep (KStep, l) (KFile, f) s = true /\ has_dep (KFile, f) (KStep, c) s = true /\
+            attached (KStep, c) s = true /\ need_of c s <> None.
+
+Lemma need_of_some l s : is_some (find_step l s) = true <-> need_of l s <> None.
+Proof. unfold need_of. destruct (find_step l s); cbn; split; congruence. Qed.
+
+Lemma in_req_edges s c l : In (c, l) (req_edges s) <-> req_edge s c l.
+Proof.
+  unfold req_edges, req_edge. rewrite in_flat_map. split.
+  - intros [d [Hd Hin]]. destruct (dsrc d) as [ka l'] eqn:Hs, (dsnk d) as [kb f] eqn:Hk.
+    destruct ka; try destruct Hin; destruct kb; try destruct Hin.
+    apply in_map_iff in Hin. destruct Hin as [c' [Heq Hc']]. injection Heq as -> ->.
+    apply filter_In in Hc'. destruct Hc' as [Hc' Hcond]. apply andb_true_iff in Hcond. destruct Hcond as [Hatt Hrow].
+    exists f. split; [|split; [|split]].
+    + apply has_dep_in. exists d. auto.
+    + apply step_sink_has_dep. exact Hc'.
+    + exact Hatt.
+    + apply need_of_some. exact Hrow.
+  - intros [f [H1 [H2 [Hatt Hrow]]]]. apply has_dep_in in H1. destruct H1 as [d [Hd [Hs Hk]]].
+    exists d. split; [exact Hd|]. rewrite Hs, Hk. apply in_map_iff. exists c. split; [reflexivity|].
+    apply filter_In. split; [apply has_dep_step_sink; exact H2|].
+    rewrite Hatt. apply need_of_some in Hrow. rewrite Hrow. reflexivity.
+Qed.
+
+Lemma need_eqb_optional n : negb (need_eqb n NOptional) = true <-> n <> NOptional.
+Proof. destruct n; cbn; split; intros H; try congruence; try reflexivity; exfalso; apply H; reflexivity. Qed.
+
+Lemma in_need_seeds s l : In l (need_seeds s) <-> exists n, need_of l s = Some n /\ n <> NOptional.
+Proof.
+  unfold need_seeds, need_of. rewrite filter_In. split.
+  - intros [_ H]. destruct (find_step l s) as [r|]; [|discriminate].
+    exists (sneed r). split; [reflexivity | apply need_eqb_optional; exact H].
+  - intros [n [H Hn]]. destruct (find_step l s) as [r|] eqn:Hf; [|discriminate]. injection H as <-.
+    destruct (find_step_in _ _ _ Hf) as [Hin Hl]. split; [|apply need_eqb_optional; exact Hn].
+    apply in_map_iff. exists r. auto.
+Qed.
+
+Lemma required_spec l s :
+  required l s = true <->
+  need_of l s <> None /\ exists a, In a (need_seeds s) /\ path (req_edges s) a l.
+Proof.
+  unfold required, required_set. rewrite andb_true_iff, need_of_some.
+  change (mem_str l) with (memb str_eqb l).
+  rewrite (closure_spec str_eqb str_eqb_eq (req_edges s) (length (req_edges s)) (need_seeds s) l (Nat.le_refl _)).
+  reflexivity.
+Qed.
+
+(* `required` only looks at: which nodes are attached, the dependency rows, the declared needs *)
+Lemma required_mono s s' :
+  (forall l n, need_of l s = Some n -> need_of l s' = Some n) ->
+  (forall c l, req_edge s c l -> req_edge s' c l) ->
+  forall l, required l s = true -> required l s' = true.
+Proof.
+  intros Hq He l H. apply required_spec in H. destruct H as [Hrow [a [Ha Hp]]]. apply required_spec. split.
+  - destruct (need_of l s) as [n|] eqn:Hn; [|congruence]. rewrite (Hq l n Hn). discriminate.
+  - exists a. split.
+    + apply in_need_seeds in Ha. destruct Ha as [n [Hn Hne]]. apply in_need_seeds. exists n. split; [apply Hq; exact Hn | exact Hne].
+    + apply (path_incl (req_edges s) (req_edges s')); [|exact Hp].
+      intros [c l'] Hin. apply in_req_edges. apply He. apply in_req_edges. exact Hin.
+Qed.
+
+Lemma req_edge_same s s' :
+  nodes s' = nodes s -> deps s' = deps s -> (forall l, need_of l s' = need_of l s) ->
+  forall c l, req_edge s c l -> req_edge s' c l.
+Proof.
+  intros Hn Hd Hq c l [f [H1 [H2 [H3 H4]]]]. exists f.
+  rewrite !(has_dep_deps _ _ s s' Hd), (attached_nodes _ s s' Hn), Hq. auto.
+Qed.
+
+Lemma required_same s s' :
+  nodes s' = nodes s -> deps s' = deps s -> (forall l, need_of l s' = need_of l s) ->
+  forall l, required l s' = required l s.
+Proof.
+  intros Hn Hd Hq l. apply Bool.eq_iff_eq_true. split.
+  - apply required_mono; [intros l0 n; rewrite Hq; auto | apply req_edge_same; auto].
+  - apply required_mono; [intros l0 n; rewrite Hq; auto | apply req_edge_same; auto].
 Qed.
 
 Section ConeInvariant.
@@ -911,7 +1003,7 @@ Section ConeInvariant.
     apply andb_true_iff in Hg. destruct Hg as [Hg _].
     apply andb_true_iff in Hg. destruct Hg as [Hatt Hpend]. apply sstate_eqb_eq in Hpend.
     assert (Hreq' : required l q = true).
-    { unfold required in *. rewrite <- Hl. rewrite <- (required_f_same _ q s Hn Hd Hq l). exact Hreq. }
+    { rewrite <- (required_same q s Hn Hd Hq l). exact Hreq. }
     specialize (Hq l) as Hql. unfold need_of in Hql. rewrite Hf in Hql.
     destruct (find_step l q) as [rq|] eqn:Hfq; [|discriminate].
     destruct (find_step_in _ _ _ Hfq) as [Hinq Hlq].
